@@ -17,6 +17,8 @@ def f32(x):
 LABELS_SMALL = ["a", "b", "c"]
 LABELS_WORDS = ["Noun", "Verb", "Adj", "Adv", "Det", "N", "Nouns", "verb"]
 LABELS_NUM = ["1", "2", "3", "5", "10", "12", "20", "100"]
+# names that are prefixes / suffixes / repetitions of each other (string algorithms, substring tests)
+LABELS_REPEATS = ["a", "aa", "aaa", "ab", "abab", "1", "11", "112", "12", "cat_1", "cat_11", "cat_111", "NP", "N", "VP", "V"]
 ANNOTATOR_NAMES = ["alex", "bob", "carl", "dora", "eve"]
 # name sets whose alphabetical order differs from other plausible orders (numeric, case-insensitive, insertion)
 NAME_SETS = [
@@ -202,10 +204,12 @@ def gen_dissim(rng, kinds=None, labels=None, allow_component_delta=True):
     kinds = kinds or ["positional", "absolute", "precomputed", "levenshtein", "ordinal", "numerical", "combined"]
     kind = rng.choice(kinds)
     delta = rng.choice(DELTAS)
+    if rng.random() < 0.35:     # any real value, not only the round ones (float32 rounding of delta_empty-scaled sums differs)
+        delta = rng.choice([round(rng.uniform(0.05, 6.0), 1), round(rng.uniform(0.05, 6.0), 3), rng.choice([1.7, 2.9, 3.4, 3.9, 5.8, 0.3, 0.7])])
     if kind in ("positional", "absolute"):
         return {"kind": kind, "delta": delta}
     if kind == "precomputed":
-        cats = sorted(labels or rng.sample(LABELS_WORDS, rng.randint(1, 5)))
+        cats = sorted(labels or rng.sample(LABELS_REPEATS if rng.random() < 0.3 else LABELS_WORDS, rng.randint(1, 5)))
         k = len(cats)
         m = [[0.0] * k for _ in range(k)]
         for i in range(k):
@@ -213,7 +217,7 @@ def gen_dissim(rng, kinds=None, labels=None, allow_component_delta=True):
                 m[i][j] = m[j][i] = round(rng.choice([0.0, 0.25, 0.5, 1.0, rng.random()]), 4)
         return {"kind": kind, "cats": cats, "matrix": m, "delta": delta}
     if kind == "levenshtein":
-        cats = list(labels or rng.sample(LABELS_WORDS, rng.randint(1, 6)))
+        cats = list(labels or rng.sample(LABELS_REPEATS if rng.random() < 0.4 else LABELS_WORDS, rng.randint(1, 6)))
         rng.shuffle(cats)
         return {"kind": kind, "cats": cats, "delta": delta}
     if kind == "ordinal":
